@@ -116,6 +116,30 @@ def read_analysis(results_dir, ninputs):
     return [p[0] if p[0] == p[1] else -2 for p in per_input]
 
 
+def launch_through_script(cli, d, cluster, N, C, trials, job, delete):
+    """`panqec generate-cluster-script` writes the script for the scheduler; the line
+    of it that starts the work is executed the way the scheduler's shell would
+    for array index `job`: variables expanded, words split, `panqec` = cli."""
+    import re
+    import shlex
+    header = os.path.join(d, 'header.sh')
+    with open(header, 'w') as f:
+        f.write('#!/bin/bash\n#job ${NAME} nodes ${N_NODES} cores ${N_CORES} time ${TIME} mem ${MEMORY}\n')
+    script = os.path.join(d, f'run_{cluster}.sh')
+    cli.generate_cluster_script.callback(
+        header_file=header, output_file=script, data_dir=d, cluster=cluster, n_nodes=N,
+        wall_time='0:10:00', memory='1G', trials=trials, n_cores=C, delete_existing=delete)
+    env = {'SGE_TASK_ID': str(job), 'SLURM_ARRAY_TASK_ID': str(job), 'PBS_ARRAY_INDEX': str(job),
+           'JOB_ID': '1', 'SLURM_JOB_ID': '1', 'PBS_JOBID': '1'}
+    with open(script) as f:
+        lines = [ln.strip() for ln in f if ln.strip().startswith('panqec run-parallel')]
+    if len(lines) != 1:
+        raise RuntimeError(f'{len(lines)} run-parallel lines in the generated script')
+    line = re.sub(r'\$\{?([A-Za-z_][A-Za-z_0-9]*)\}?', lambda m: env.get(m.group(1), ''), lines[0])
+    words = shlex.split(line)
+    cli.cli.main(args=words[1:], standalone_mode=False)
+
+
 def replay(args):
     idx, beh, workroot = args
     import panqec.cli as cli
@@ -142,7 +166,8 @@ def replay(args):
                 ev['trials'] = st['trials']
                 steps.append(ev)
                 continue
-            ev.update(job=st['job'], trials=st['trials'], delete=bool(st.get('delete', False)))
+            ev.update(job=st['job'], trials=st['trials'], delete=bool(st.get('delete', False)),
+                      via=st.get('via', 'direct'))
             if st['a'] == 'partial':
                 ev.update(task=st['task'], stop=st['stop'])
                 cli.multiprocessing = _StopEarly(
@@ -152,9 +177,12 @@ def replay(args):
             before = read_files(res, ntasks, I)[0]
             try:
                 with contextlib.redirect_stdout(io.StringIO()):
-                    cli.run_parallel.callback(
-                        data_dir=d, trials=st['trials'], n_nodes=N, job_idx=st['job'],
-                        n_cores=C, delete_existing=ev['delete'])
+                    if ev['via'] == 'direct' or st['a'] == 'partial':
+                        cli.run_parallel.callback(
+                            data_dir=d, trials=st['trials'], n_nodes=N, job_idx=st['job'],
+                            n_cores=C, delete_existing=ev['delete'])
+                    else:
+                        launch_through_script(cli, d, ev['via'], N, C, st['trials'], st['job'], ev['delete'])
             except BaseException as ex:      # noqa
                 raised = f'{type(ex).__name__}: {ex}'[:160]
             finally:
